@@ -17,6 +17,8 @@ from ..engine import pattern as P
 from ..engine.facts import dotted, const, src, walk_func, str_value, enclosing_stmt, ancestors
 from .common import calls, raise_names, contains, pn, access_paths, assigned_from
 from . import c12  # line-split-agreement is registered for C11 there
+from . import c01  # line-count (line and column bookkeeping of match_reg) is registered for C11 there
+from . import c05  # attribute-pieces is registered for C11 there
 
 PARSERS = {"ast.PythonCode", "ast.PythonFragment", "ast.ArgumentList", "ast.FunctionDecl", "ast.FunctionArgs",
            "PythonCode", "PythonFragment", "ArgumentList", "FunctionDecl", "FunctionArgs", "pyparser.parse"}
